@@ -3,8 +3,12 @@ package checks
 import (
 	"context"
 	"encoding/json"
+	"errors"
 	"fmt"
+	"github.com/creachadair/jrpc2/channel"
+	"io"
 	"math/rand/v2"
+	"net"
 	"sync"
 	"sync/atomic"
 	"time"
@@ -212,10 +216,21 @@ func c10stress(c *vt.Ctx, rng *rand.Rand, callers, opsPer int, endHow int) {
 	c.Eval(1)
 }
 
+// c10recvErrors are the errors the failing-Recv variants inject: a plain failure, end of
+// stream, and the spellings of "the connection was closed" that channel.IsErrClosing knows.
+var c10recvErrors = []error{
+	errors.New("c10: transport failure"), io.EOF, fmt.Errorf("c10: %w", channel.ErrClosed), net.ErrClosed, fmt.Errorf("read tcp: %w", net.ErrClosed),
+}
+
 // c10bubble runs a scripted server scenario in a bubble with the monitor armed.
 func c10bubble(c *vt.Ctx, variant int, ctrl *sched.Controller) {
 	peer.Bubble(c, ctrl, func() {
-		rig := peer.NewServerRig(c, ctrl, peer.ServerOpts{AllowPush: true, Concurrency: 8, FailOnDiscipline: true, PipeLike: variant%2 == 0, Spin: 6, Validator: c10validRecord})
+		opts := peer.ServerOpts{AllowPush: true, Concurrency: 8, FailOnDiscipline: true, PipeLike: variant%2 == 0, Spin: 6, Validator: c10validRecord}
+		if k := variant/2 - 4; k >= 0 {
+			// the connection ends by a failing Recv, with every kind of error a transport reports
+			opts.Faults = []vchan.Fault{{Op: vchan.OpRecv, N: 3, Sticky: true, Err: c10recvErrors[k]}}
+		}
+		rig := peer.NewServerRig(c, ctrl, opts)
 		rig.H.OnEnter = func(ctx context.Context, tag string, req *jrpc2.Request) {
 			if tag == "p1" || tag == "p2" {
 				jrpc2.ServerFromContext(ctx).Notify(ctx, "note", nil)
@@ -246,6 +261,11 @@ func c10bubble(c *vt.Ctx, variant int, ctrl *sched.Controller) {
 			rig.H.ReleaseAll()
 			rig.Send(`more garbage`)
 			rig.Srv.Stop()
+		case 4, 5, 6, 7, 8: // traffic until the third Recv fails
+			rig.Send(peer.Req("1", "g", "c1"))
+			rig.Send(peer.Req("2", "i", "c2"))
+			rig.Settle()
+			rig.H.ReleaseAll()
 		case 3: // callback outstanding, reply and stop
 			go rig.Srv.Callback(context.Background(), "cb", nil)
 			rig.Send(peer.Req("1", "g", "c1"))
@@ -339,7 +359,7 @@ func c10cases(e vt.Env, yield func(vt.Case) bool) {
 		}
 	}
 	d := e.Pick(1, 2)
-	for v := 0; v < 8; v++ {
+	for v := 0; v < 8+2*len(c10recvErrors); v++ {
 		v := v
 		id := fmt.Sprintf("B/server/%d/d%d", v, d)
 		if !yield(vt.Case{ID: id, Run: func(c *vt.Ctx) {
